@@ -33,9 +33,12 @@ def _norm(raws):
     return [[{str(x) for x in b} for b in r] for r in raws]
 
 
+UNIFYING_MULTIPLES = ("unifying", "unifying-x3")       # positive multiples of the unifying scheme (equivalent to it)
+
+
 def _accepts(kind: str, sname: str, complete: bool) -> bool:
-    return complete or kind == "any" or (kind == "borda" and sname in ("unifying", "unifying-p0.5", "induced")) \
-        or (kind == "pick" and sname == "unifying")
+    return complete or kind == "any" or (kind == "borda" and sname in ("unifying", "unifying-p0.5", "induced", "unifying-x3")) \
+        or (kind == "pick" and sname in UNIFYING_MULTIPLES)
 
 
 # ---------------------------------------------------------------------------------------------------------------
@@ -421,7 +424,7 @@ def _c09(w, ds, sch, raws, pen, sname, complete, pivot):
 
 def _c10(w, ds, sch, raws, pen, sname, complete, pivot):
     pk = w.alg("pickaperm.pickaperm", "PickAPerm")
-    ok = complete or sname == "unifying"
+    ok = complete or sname in UNIFYING_MULTIPLES
     cands = raws if complete else oracle.unified(raws)
     for amo in (True, False):
         st, c = w.try_compute(pk, ds, sch, amo)
@@ -482,7 +485,7 @@ def _c11(w, ds, sch, raws, pen, sname, complete, pivot):
 
 def _c12(w, ds, sch, raws, pen, sname, complete, pivot):
     from .C12 import expected
-    kind = {"unifying": "UNI1", "unifying-p0.5": "UNI05", "induced": "IND1"}.get(sname, "OTHER")
+    kind = {"unifying": "UNI1", "unifying-x3": "UNI1", "unifying-p0.5": "UNI05", "induced": "IND1"}.get(sname, "OTHER")
     for ubi in (False, True):
         alg = w.alg("borda.borda", "BordaCount", use_bucket_id=ubi)
         want = expected(oracle.universe(raws), raws, kind, ubi)
